@@ -811,6 +811,10 @@ class ConstructedPayloadDecoderBase(AbstractConstructedPayloadDecoder):
                                 namedType.openType.name
                             )
 
+                            if not governingValue.isValue:
+                                # absent governing component: nothing to go by
+                                continue
+
                             try:
                                 openType = openTypes[governingValue]
 
@@ -1045,6 +1049,10 @@ class ConstructedPayloadDecoderBase(AbstractConstructedPayloadDecoder):
                             governingValue = asn1Object.getComponentByName(
                                 namedType.openType.name
                             )
+
+                            if not governingValue.isValue:
+                                # absent governing component: nothing to go by
+                                continue
 
                             try:
                                 openType = openTypes[governingValue]
